@@ -28,7 +28,7 @@ PROPS = {
     'C12': {
         'level': 'proof',
         'verus': ['bits'],
-        'kani': ['bits_k', 'bsr_k'],
+        'kani': ['bits_k', 'bsr_k', 'bsw_k'],
         'claim': ('Contracts on the real bodies of ByteStreamWriteBuffer::{new,add_bytes,add_bits,get_full_bytes,get_all_bytes,'
                   'full_bytes,all_bytes}, integer_bits, serialize_integer, RecordDataType::{bit_size,write}, '
                   'ByteStreamReadBuffer::{new,append,extract,available}, BitPack::unpack_{ints,scaled_ints,singles,doubles}: '
@@ -337,6 +337,8 @@ PROPS['C01'] = {
 PROPS['C10']['assumptions'] += _PCW2
 PROPS['C14']['assumptions'] += _PCW2
 PROPS['C14']['claim'] += ' Unit pcw (Verus, real bodies): PointCloudWriter::new creates empty bounds exactly for the attribute groups present and default limits = declared range of the first Intensity / ColorRed,Green,Blue record types; add_point folds min/max over the records of the point for all 18 bound fields (frame over the structs), leaves them untouched when the point is rejected; write_buffer_to_disk never touches bounds/limits; finalize moves bounds and limits unchanged into the published descriptor.'
+PROPS['C01']['kani'] = ['bsw_k', 'bsr_k']
+PROPS['C06']['verus'] = ['page_w', 'page_r', 'blob']
 PROPS['C02']['verus'] = ['page_w', 'fmt', 'blob', 'e57w', 'pcw']
 PROPS['C16']['verus'] = ['page_w', 'page_r', 'rd_top', 'blob', 'e57w', 'pcw']
 
